@@ -142,6 +142,7 @@ def wfCase (c : Codec) (u : CUpdate) (cs : List Corr) : Bool :=
     && (u.nlri.isEmpty || hasAttr u 3)
     && (announces || !u.wd.isEmpty || u.mpu.isSome)
     && cs.all (corrIdxOk (rcodes u).length)
+    && distinctCodes (cs.filterMap fun k => match k with | .unknown _ code _ => some code | _ => none)
     && u.attrs.length ≤ 40 && u.wd.length ≤ 40 && u.nlri.length ≤ 40
     && (match u.mpr with | some m => m.nlri.length ≤ 40 | none => true)
     && (match u.mpu with | some m => m.nlri.length ≤ 40 | none => true)
@@ -153,6 +154,7 @@ inductive Cls where
   | taw                          -- treat-as-withdraw required
   | discardOrTaw (code : Nat)    -- attribute discard allowed
   | dup (code : Nat) (d : Bytes) -- the second copy must not be believed
+  | tawOrReset                   -- MP_REACH / MP_UNREACH header damaged but NLRI intact: withdraw or reset
   | weak                         -- touches NLRI location / block framing: a reset is allowed
   deriving DecidableEq, Repr
 
@@ -167,8 +169,8 @@ def classify (two : Bool) (u : CUpdate) (announces legacyNlri : Bool) : Corr →
   | .flags i f =>
       match (rcodes u)[i]? with
       | some code =>
-          if isMp code then .weak
-          else if some (flagBits f) == attrClass code then .none
+          if some (flagBits f) == attrClass code then .none
+          else if isMp code then .tawOrReset
           else malformedCls code
       | none => .none
   | .data i d =>
@@ -191,9 +193,113 @@ def classify (two : Bool) (u : CUpdate) (announces legacyNlri : Bool) : Corr →
           else if isMp code then .weak
           else .none
       | none => .none
-  | .trunc k => if k = 0 then .none else .weak
-  | .unknown f _ _ => if f / 128 % 2 == 0 then .taw else .none
+  | .trunc _ => .none   -- judged by `truncCls` from the wire layout
+  | .unknown _ _ _ => .none   -- judged by `survivorCls` from the wire layout
   | .nlribad _ => if legacyNlri then .weak else .none
+
+/-! ### which corruptions are in effect (a later one of the same kind on the same attribute replaces an
+    earlier one; nothing done to an omitted attribute matters) -/
+
+def corrTarget : Corr → Option Nat
+  | .flags i _ => some i
+  | .data i _ => some i
+  | .lenfield i _ => some i
+  | .dup i _ => some i
+  | _ => none
+
+def sameSlot : Corr → Corr → Bool
+  | .flags i _, .flags j _ => i == j
+  | .data i _, .data j _ => i == j
+  | .lenfield i _, .lenfield j _ => i == j
+  | .dup i _, .dup j _ => i == j
+  | .omit i, .omit j => i == j
+  | .nlribad _, .nlribad _ => true
+  | _, _ => false
+
+def omitted (cs : List Corr) : List Nat :=
+  cs.filterMap fun c => match c with | .omit i => some i | _ => none
+
+def liveCorrs (om : List Nat) : List Corr → List Corr
+  | [] => []
+  | c :: rest =>
+      let dead := rest.any (sameSlot c) || (match corrTarget c with | some i => om.contains i | none => false)
+      (if dead then [] else [c]) ++ liveCorrs om rest
+
+/-! ### truncation of the attribute block: which attributes disappear, which one is cut -/
+
+structure EAttr where
+  code : Nat
+  flags : Nat
+  dataLen : Nat
+  /-- a second copy made by a `dup` corruption, or an appended unrecognised attribute -/
+  extra : Bool := false
+  /-- what the corruptions applied to this attribute call for, provided it is entirely on the wire -/
+  cls : List Cls := []
+  deriving DecidableEq, Repr
+
+def pfxSize (addpath : Bool) (p : CPfx) : Nat := (if addpath then 4 else 0) + 1 + p.addr.length
+
+def baseEAttrs (c : Codec) (u : CUpdate) : List EAttr :=
+  let ap (afi safi : Nat) : Bool := (negotiated c (famKey afi safi)).getD false
+  (u.attrs.map fun a => ({ code := a.code, flags := a.flags, dataLen := a.data.length } : EAttr))
+    ++ (match u.mpr with
+        | some m =>
+            let n := 2 + 1 + 1 + m.nh.length + 1 + ((m.nlri.map (pfxSize (ap m.afi m.safi))).foldl (· + ·) 0)
+            [{ code := 14, flags := if n > 255 then 0x90 else 0x80, dataLen := n }]
+        | none => [])
+    ++ (match u.mpu with
+        | some m =>
+            let n := 2 + 1 + ((m.nlri.map (pfxSize (ap m.afi m.safi))).foldl (· + ·) 0)
+            [{ code := 15, flags := if n > 255 then 0x90 else 0x80, dataLen := n }]
+        | none => [])
+
+/-- attributes on the wire, last first, after the live corruptions other than truncation -/
+def wireAttrsRev (c : Codec) (u : CUpdate) (announces legacyNlri : Bool) (live : List Corr) : List EAttr :=
+  let base := baseEAttrs c u
+  let idx := List.range base.length
+  let one (i : Nat) (a : EAttr) : List EAttr :=
+    if live.any (fun k => match k with | .omit j => i == j | _ => false) then []
+    else
+      let mine := live.filter fun k => match k with
+        | .flags j _ => i == j
+        | .data j _ => i == j
+        | _ => false
+      let fl := mine.foldl (fun acc k => match k with | .flags _ f => f | _ => acc) a.flags
+      let dl := mine.foldl (fun acc k => match k with | .data _ d => d.length | _ => acc) a.dataLen
+      let dups := live.filterMap fun k => match k with | .dup j d => if i == j then some d else none | _ => none
+      [{ a with flags := fl, dataLen := dl, cls := mine.map (classify c.two u announces legacyNlri) }] ++
+        (dups.map fun d =>
+          ({ code := a.code, flags := fl, dataLen := d.length, extra := true,
+             cls := [classify c.two u announces legacyNlri (.dup i d)] } : EAttr))
+  let main := ((idx.zip base).map fun (i, a) => one i a).flatten
+  let unk := live.filterMap fun k => match k with
+    | .unknown f code d =>
+        some ({ code := code, flags := f, dataLen := d.length, extra := true,
+                cls := if f / 128 % 2 == 0 then [Cls.taw] else [] } : EAttr)
+    | _ => none
+  (main ++ unk).reverse
+
+/-- walk from the end of the block: `k` bytes are missing -/
+def truncCls (announces legacyNlri : Bool) : List EAttr → Nat → List Cls
+  | [], _ => []
+  | a :: rest, k =>
+      if k = 0 then (a :: rest).flatMap (·.cls)
+      else
+        let sz := attrSize a.flags a.dataLen
+        if k ≥ sz then
+          -- the whole attribute is gone
+          (if isMp a.code then Cls.weak
+           else if a.extra then Cls.none
+           else if (a.code == 1 || a.code == 2) && announces then Cls.taw
+           else if a.code == 3 && legacyNlri then Cls.taw
+           else Cls.none) :: truncCls announces legacyNlri rest (k - sz)
+        else
+          -- cut in the middle
+          [if isMp a.code then Cls.weak
+           else match attrClass a.code with
+             | some _ => malformedCls a.code
+             | none => if a.flags / 128 % 2 == 1 && a.flags / 64 % 2 == 0 then Cls.discardOrTaw a.code else Cls.taw]
+            ++ rest.flatMap (·.cls)
 
 /-! ### judging the observation -/
 
@@ -223,13 +329,24 @@ def check (c : Codec) (ebgp : Bool) (u : CUpdate) (cs : List Corr) (obs : URes) 
   else
     let legacyNlri := !u.nlri.isEmpty
     let announces := legacyNlri || u.mpr.isSome
-    let cls := cs.map (classify c.two u announces legacyNlri)
+    let live := liveCorrs (omitted cs) cs
+    let truncK := live.foldl (fun acc k => match k with | .trunc n => acc + n | _ => acc) 0
+    let framing := live.any fun k => match k with | .lenfield _ _ => true | _ => false
+    let cls := (live.map fun k => match k with
+        | .omit i => classify c.two u announces legacyNlri (.omit i)
+        | .nlribad m => classify c.two u announces legacyNlri (.nlribad m)
+        | .lenfield i l => classify c.two u announces legacyNlri (.lenfield i l)
+        | _ => Cls.none)
+      ++ (if framing && truncK > 0 then [Cls.weak]
+          else truncCls announces legacyNlri (wireAttrsRev c u announces legacyNlri live) truncK)
     let weak := cls.contains .weak
+    let mustTaw := cls.contains .taw || cls.contains .tawOrReset
     match obs with
     | .panic => .fail "panic"
     | .more => .fail "need-more-on-a-complete-frame"
     | .reset _ =>
-        if weak then .ok else .fail "session-reset-although-the-nlri-can-be-located-and-parsed"
+        if weak || cls.contains .tawOrReset then .ok
+        else .fail "session-reset-although-the-nlri-can-be-located-and-parsed"
     | .ok msgs =>
         let reaches := reachMsgs msgs
         if ebgp && reaches.any (fun attrs => attrs.any fun a => a.code == 5 || a.code == 9 || a.code == 10) then
@@ -250,7 +367,7 @@ def check (c : Codec) (ebgp : Bool) (u : CUpdate) (cs : List Corr) (obs : URes) 
               sets.all fun (fam, ps) => allIn ps (withdrawnOut msgs fam)
             let announcedWithdrawn := withdrawnAll ((FAM_IPV4, aLegacy) :: aMp)
             if !withdrawnAll wMp then .fail "withdrawal-in-the-same-message-lost"
-            else if cls.contains .taw then
+            else if mustTaw then
               if !reaches.isEmpty then .fail "route-announced-although-an-attribute-error-requires-treat-as-withdraw"
               else if !announcedWithdrawn then .fail "announced-prefix-neither-withdrawn-nor-session-reset"
               else .ok
@@ -267,5 +384,38 @@ def check (c : Codec) (ebgp : Bool) (u : CUpdate) (cs : List Corr) (obs : URes) 
               if badDiscard then .fail "malformed-attribute-kept-on-an-announced-route"
               else if badDup then .fail "duplicate-attribute-believed-instead-of-the-first"
               else .ok
+
+/-! ## the same property one level down: judged on the parse result (`ParsedUpdate`) and the `Message` list
+
+  `errs` are the `AttributeError`s (type, received flags) the parser recorded.  An error on an attribute whose TYPE
+  is not discardable (or on an unrecognised well-known attribute, or the "malformed attribute list" marker (0, 0))
+  requires treat-as-withdraw; so does a missing ORIGIN / AS_PATH / NEXT_HOP when something is announced.  -/
+
+def errMustTaw (e : Nat × Nat) : Bool :=
+  match attrClass e.1 with
+  | some _ => !discardable e.1
+  | none => e.2 / 128 % 2 == 0
+
+def mandatoryMissing (reach mpReach : Option Reach) (attrs : List Attr) : Bool :=
+  (reach.isSome || mpReach.isSome) &&
+    (!(attrs.any (·.code == 1)) || !(attrs.any (·.code == 2))
+      || (match reach with | some r => r.nh.isNone | none => false))
+
+def checkV (ebgp : Bool) (reach mpReach : Option Reach) (unreach mpUnreach : Option Unreach)
+    (attrs : List Attr) (errs : List (Nat × Nat)) (out : List VMsg) : Verdict :=
+  let reaches := reachMsgs out
+  let withdrawnR (l : List Reach) : Bool := l.all fun r => allIn r.entries (withdrawnOut out r.fam)
+  let withdrawnU (l : List Unreach) : Bool := l.all fun u => allIn u.entries (withdrawnOut out u.fam)
+  if !withdrawnU (optList unreach ++ optList mpUnreach) then .fail "withdrawal-in-the-same-message-lost"
+  else if ebgp && reaches.any (fun as => as.any fun a => a.code == 5 || a.code == 9 || a.code == 10) then
+    .fail "ibgp-only-attribute-from-an-external-peer-believed"
+  else if mandatoryMissing reach mpReach attrs || errs.any errMustTaw then
+    if !reaches.isEmpty then .fail "route-announced-although-an-attribute-error-requires-treat-as-withdraw"
+    else if !withdrawnR (optList reach ++ optList mpReach) then
+      .fail "announced-prefix-neither-withdrawn-nor-session-reset"
+    else .ok
+  else if reaches.any (fun as => as.any fun a => errs.any fun e => e.1 == a.code) then
+    .fail "malformed-attribute-kept-on-an-announced-route"
+  else .ok
 
 end Rbgp.Wire.USpec
